@@ -15,7 +15,7 @@ EXPLANATION = (
     "not decided.")
 # every anchor of these rules lives in the h3 crate: thorough tier repeats them on the feature-less build
 EXTRA_CONFIGS = ["h3-plain"]
-RULES = "C08-a monotone send (A2/A5/A4); C08-b accept/reject line (A5/A3); C08-c announced id is a successor (A4); C08-d client side (A2/A3/A5); shared through a proxy: C16-a under C08-c"
+RULES = "C08-a monotone send (A2/A5/A4); C08-b accept/reject line (A5/A3), accept() ends only after an unconditional final shutdown(0) (A2); C08-c announced id is a successor (A4); C08-d client side (A2/A3/A5); shared through a proxy: C16-a under C08-c, C16-b (is_request truth table) under C08-d"
 
 CI = "h3::connection::ConnectionInner::"
 SV = "h3::server::connection::Connection::"
@@ -38,6 +38,10 @@ def rel_between(p, is_a, is_b):
 
 def run(ctx):
     prog = ctx.prog
+    # the codes this property names are the registry values (the rules below speak of them by name)
+    from rules import shared as _shc
+    _shc.error_code_values(ctx, "C08-b", ("H3_REQUEST_REJECTED",))
+    _shc.error_code_values(ctx, "C08-d", ("H3_ID_ERROR",))
     # ------------------------------------------------------------------ C08-a
     sh = ru.need(ctx, "C08-a", CI + "shutdown::{closure#0}")
     if sh:
